@@ -213,7 +213,9 @@ def gen_cases(ctx):
             add(runner='cert', site='cv12', ver=(3, 3), verifier='server', key=key, how='scheme', target='cv',
                 scheme=theirs, verifier_settings=mine)
         for key, mine, theirs in [('rsa', {'rsaSigHashes': ['sha256']}, (5, 1)), ('rsa', {'rsaSigHashes': ['sha256']}, (8, 5)),
-                                  ('ecdsa', {'ecdsaSigHashes': ['sha256']}, (5, 3))]:
+                                  ('ecdsa', {'ecdsaSigHashes': ['sha256']}, (5, 3)), ('ecdsa', {'ecdsaSigHashes': ['sha384']}, (2, 3)),
+                                  ('dsa', {'dsaSigHashes': ['sha256']}, (2, 2)), ('dsa', {'dsaSigHashes': ['sha1']}, (4, 2)),
+                                  ('rsapss', {'rsaSigHashes': ['sha256']}, (8, 10)), ('rsa', {'rsaSchemes': ['pss']}, (4, 1))]:
             add(runner='cert', site='ske', ver=(3, 3), verifier='client', key=key, how='scheme', target='ske',
                 scheme=theirs, verifier_settings=mine)
         # Checker
